@@ -6,6 +6,7 @@
 -/
 import ChumskyModel.Proofs.Lemmas.Top
 import ChumskyModel.Proofs.Lemmas.SpecInv
+import ChumskyModel.Proofs.Lemmas.PrattInv
 set_option linter.unusedSimpArgs false
 namespace Chumsky
 
@@ -88,6 +89,35 @@ example :
       | _ => (none, [])) = (some (.pair (.tok 97) (.pair (.tok 98) (.insp [97, 98]))), [97, 98]) := by
   decide +kernel
 
+/-! ### Pratt parsers (the property's class includes C09) -/
+
+/-- **C18 for `atom.pratt(ops)`.** A successful Pratt parse from `s` to `s'` has fed the inspector exactly the tokens
+    between the two positions — whatever operators matched and were rewound because their operand was missing. -/
+theorem c18_pratt_fed (fuel : Nat) (env : Env) (hdefs : ∀ d ∈ env.defs, d.noStateScope = true) (atom : G)
+    (hatom : atom.noStateScope = true) (ops : List PrattOp) (hops : ∀ o ∈ ops, o.parser.noStateScope = true)
+    (s : SS) (ctx : Val) {v s' em} (h : pegPratt fuel env atom ops s ctx = .ok v s' em) :
+    s.pos ≤ s'.pos ∧ s'.insp = s.insp ++ (env.toks.drop s.pos).take (s'.pos - s.pos) :=
+  pegPratt_fed fuel env hdefs atom hatom ops hops s ctx h
+
+/-- after a successful `parse` / `check` of a Pratt parser the state has seen exactly the whole input (machine level) -/
+theorem c18_pratt_final_state (fuel : Nat) (env : Env) (m : Mode) (hm : env.memoOn = false)
+    (hdefs : ∀ d ∈ env.defs, d.noStateScope = true) (atom : G) (hatom : atom.noStateScope = true) (ops : List PrattOp)
+    (hops : ∀ o ∈ ops, o.parser.noStateScope = true) (r : ParseResult) (f : St)
+    (h : parseTopPratt fuel env m atom ops = .result r f) (v : Val) (ho : r.output = some v) :
+    f.insp = env.toks ∧ f.pos = env.toks.length :=
+  parseTopPratt_final_state fuel env m hm hdefs atom hatom ops hops r f h v ho
+
+/-- recursive expression grammars `recursive(|e| atom.pratt(ops))`: the same at every grammar position, through any depth
+    of parentheses -/
+theorem c18_recursive_pratt_fed (x : XEnv) (n : Nat) (env : Env) (hdefs : ∀ d ∈ env.defs, d.noStateScope = true)
+    (hatom : x.atom.noStateScope = true) (hops : ∀ o ∈ x.ops, o.parser.noStateScope = true) (g : G)
+    (hg : g.noStateScope = true) (s : SS) (ctx : Val) {v s' em} (h : pegX x n env g s ctx = .ok v s' em) :
+    s.pos ≤ s'.pos ∧ s'.insp = s.insp ++ (env.toks.drop s.pos).take (s'.pos - s.pos) :=
+  pegX_fed x n env hdefs hatom hops g hg s ctx h
+
+#print axioms c18_pratt_fed
+#print axioms c18_pratt_final_state
+#print axioms c18_recursive_pratt_fed
 #print axioms c18_machine_inspector
 #print axioms c18_fed
 #print axioms c18_prefix_invariant
